@@ -70,6 +70,19 @@ struct St {
     hdrs: Vec<(String, String)>,
     /// client resets the stream after having seen this many DATA frames
     reset_after: Option<usize>,
+    /// request body the client uploads on this stream (POST), see `Up`
+    #[serde(default)]
+    up: Option<Up>,
+}
+
+/// upload: the client sends `splits.len()` `send_data` calls of these lengths (byte i of the whole
+/// upload = (fill + i) mod 251), END_STREAM on the last one (an empty list = one empty DATA frame
+/// with END_STREAM); `reset_after = Some(k)`: RST_STREAM instead of the (k+1)-th call
+#[derive(Serialize, Deserialize, Clone, Debug)]
+struct Up {
+    splits: Vec<usize>,
+    fill: u8,
+    reset_after: Option<usize>,
 }
 
 #[derive(Serialize, Deserialize, Clone, Debug)]
@@ -82,6 +95,9 @@ struct Case {
     release: String,
     /// capacity of the in-memory pipe in each direction
     pipe: usize,
+    /// server's SETTINGS_INITIAL_WINDOW_SIZE (`h2_initial_window_size`): the window uploads go through
+    #[serde(default)]
+    swindow: Option<u32>,
     streams: Vec<St>,
 }
 
@@ -172,21 +188,58 @@ struct Obs {
     frames: Vec<usize>,
     data: Vec<u8>,
     end: End,
+    up: UpObs,
+}
+
+/// what the handler saw on `h2::Payload` (one entry per `poll_next` item)
+#[derive(Clone, Debug, Default, PartialEq)]
+struct UpObs {
+    polled: bool,
+    items: Vec<usize>,
+    data: Vec<u8>,
+    /// "open" (no terminal item yet), "end" (None), "h2" (Err(PayloadError::Http2Payload)), "other"
+    end: &'static str,
 }
 
 async fn drive(i: usize, mut sr: h2::client::SendRequest<Bytes>, st: St, case: Rc<Case>, obs: Rc<RefCell<Vec<Obs>>>) {
     let req = http::Request::builder()
-        .method(if st.head { http::Method::HEAD } else { http::Method::GET })
+        .method(if st.up.is_some() { http::Method::POST } else if st.head { http::Method::HEAD } else { http::Method::GET })
         .uri(format!("http://h/{i}"))
         .body(())
         .unwrap();
-    let (resp, mut tx) = match sr.send_request(req, true) {
+    let (resp, tx) = match sr.send_request(req, st.up.is_none()) {
         Ok(x) => x,
         Err(e) => {
             obs.borrow_mut()[i].end = End::NoResponse(format!("{e}"));
             return;
         }
     };
+    // the upload runs beside the download; h2 queues what the server's window does not admit yet
+    let mut tx = Some(tx);
+    if let Some(up) = st.up.clone() {
+        let mut tx = tx.take().unwrap();
+        actix_rt::spawn(async move {
+            let total: usize = up.splits.iter().sum();
+            let all = chunk_bytes(total, up.fill);
+            let mut off = 0;
+            if up.splits.is_empty() && up.reset_after.is_none() {
+                let _ = tx.send_data(Bytes::new(), true);
+            }
+            for (k, n) in up.splits.iter().enumerate() {
+                if up.reset_after == Some(k) {
+                    tokio::task::yield_now().await;
+                    tx.send_reset(h2::Reason::CANCEL);
+                    return;
+                }
+                let last = k + 1 == up.splits.len();
+                if tx.send_data(Bytes::copy_from_slice(&all[off..off + n]), last).is_err() {
+                    return;
+                }
+                off += n;
+                tokio::task::yield_now().await;
+            }
+        });
+    }
     let resp = match resp.await {
         Ok(r) => r,
         Err(e) => {
@@ -213,8 +266,8 @@ async fn drive(i: usize, mut sr: h2::client::SendRequest<Bytes>, st: St, case: R
     let mut acc = 0usize;
     loop {
         if let Some(k) = st.reset_after {
-            if obs.borrow()[i].frames.len() >= k {
-                tx.send_reset(h2::Reason::CANCEL);
+            if obs.borrow()[i].frames.len() >= k && tx.is_some() {
+                tx.as_mut().unwrap().send_reset(h2::Reason::CANCEL);
                 obs.borrow_mut()[i].end = End::ClientReset;
                 return;
             }
@@ -272,21 +325,53 @@ async fn drive(i: usize, mut sr: h2::client::SendRequest<Bytes>, st: St, case: R
 fn run_impl(case: &Case) -> Vec<Obs> {
     let case = Rc::new(case.clone());
     let n = case.streams.len();
-    let obs = Rc::new(RefCell::new(vec![Obs { head: None, frames: vec![], data: vec![], end: End::Running }; n]));
+    let obs = Rc::new(RefCell::new(vec![Obs { head: None, frames: vec![], data: vec![], end: End::Running, up: UpObs { end: "open", ..Default::default() } }; n]));
+    let obs3 = obs.clone();
     let obs2 = obs.clone();
     let case2 = case.clone();
     vh::exec::run_local(async move {
         tokio::time::pause();
         let (cio, sio) = tokio::io::duplex(case2.pipe.max(1));
         let scripts = case2.clone();
-        let factory = HttpService::build()
-            .keep_alive(KeepAlive::Disabled)
-            .client_request_timeout(Duration::ZERO)
-            .h2(fn_service(move |req: Request| {
-                let idx: usize = req.path().trim_start_matches('/').parse().unwrap_or(0);
-                let st = scripts.streams[idx.min(scripts.streams.len() - 1)].clone();
-                async move { Ok::<_, Infallible>(build_response(&st)) }
-            }));
+        let mut builder = HttpService::build().keep_alive(KeepAlive::Disabled).client_request_timeout(Duration::ZERO);
+        if let Some(sw) = case2.swindow {
+            builder = builder.h2_initial_window_size(sw);
+        }
+        let factory = builder.h2(fn_service(move |mut req: Request| {
+            let idx: usize = req.path().trim_start_matches('/').parse().unwrap_or(0);
+            let idx = idx.min(scripts.streams.len() - 1);
+            let st = scripts.streams[idx].clone();
+            let log = obs3.clone();
+            async move {
+                if req.method() == actix_http::Method::POST {
+                    // the handler reads the request body to its end (or first error) through h2::Payload
+                    use futures_util::StreamExt as _;
+                    let mut pl = req.take_payload();
+                    log.borrow_mut()[idx].up.polled = true;
+                    loop {
+                        match pl.next().await {
+                            Some(Ok(b)) => {
+                                let mut l = log.borrow_mut();
+                                l[idx].up.items.push(b.len());
+                                l[idx].up.data.extend_from_slice(&b);
+                            }
+                            Some(Err(e)) => {
+                                log.borrow_mut()[idx].up.end = match e {
+                                    actix_http::error::PayloadError::Http2Payload(_) => "h2",
+                                    _ => "other",
+                                };
+                                break;
+                            }
+                            None => {
+                                log.borrow_mut()[idx].up.end = "end";
+                                break;
+                            }
+                        }
+                    }
+                }
+                Ok::<_, Infallible>(build_response(&st))
+            }
+        }));
         let svc = factory.new_service(()).await.expect("service");
         tokio::task::yield_now().await;
         let conn = svc.call((sio, None));
@@ -312,6 +397,15 @@ fn run_impl(case: &Case) -> Vec<Obs> {
             drop(sr);
             for t in tasks {
                 let _ = t.await;
+            }
+            // a client that reset its upload is done at once; give the server side the (virtual) time
+            // to see the end of every request body before the connection is torn down
+            loop {
+                let open = case2.streams.iter().zip(obs2.borrow().iter()).any(|(st, o)| st.up.is_some() && o.up.end == "open");
+                if !open {
+                    break;
+                }
+                tokio::time::sleep(Duration::from_millis(1)).await;
             }
             client.abort();
         };
@@ -350,8 +444,50 @@ fn lying_cl(st: &St) -> bool {
     st.size == "stream" && !matches!(st.status, 101) && st.hdrs.iter().any(|(k, v)| k == "content-length" && v.parse::<usize>().ok() != Some(script.len()))
 }
 
+/// request side: the handler must see exactly the uploaded bytes, in order, then the end; after a
+/// client reset a prefix and then an h2 payload error; it must never be left waiting
+fn oracle_upload(i: usize, up: &Up, u: &UpObs) -> Result<(), String> {
+    let total: usize = up.splits.iter().sum();
+    let all = chunk_bytes(total, up.fill);
+    if !u.polled {
+        return Err(format!("stream {i}: handler never started reading the upload"));
+    }
+    if u.end == "open" {
+        return Err(format!("stream {i}: upload stalls: handler got {} of {} bytes and no end (capacity not released?)", u.data.len(), total));
+    }
+    if u.items.iter().sum::<usize>() != u.data.len() {
+        return Err(format!("stream {i}: upload item lengths inconsistent"));
+    }
+    match up.reset_after.filter(|k| *k < up.splits.len()) {
+        None => {
+            if u.end != "end" {
+                return Err(format!("stream {i}: upload ended with error kind {} after {} of {} bytes", u.end, u.data.len(), total));
+            }
+            if u.data != all {
+                return Err(format!("stream {i}: handler saw {} bytes, client uploaded {} (or content differs)", u.data.len(), total));
+            }
+        }
+        Some(_) => {
+            if !all.starts_with(&u.data) {
+                return Err(format!("stream {i}: handler saw bytes that are not a prefix of the upload"));
+            }
+            if u.end != "h2" {
+                return Err(format!("stream {i}: upload was reset by the client but the handler saw end kind {:?}", u.end));
+            }
+        }
+    }
+    Ok(())
+}
+
 fn oracle(case: &Case, obs: &[Obs]) -> Result<(), String> {
     for (i, (st, o)) in case.streams.iter().zip(obs).enumerate() {
+        if let Some(up) = &st.up {
+            oracle_upload(i, up, &o.up)?;
+            if up.reset_after.map_or(false, |k| k < up.splits.len()) {
+                // the client killed the stream: nothing to demand of the response
+                continue;
+            }
+        }
         let informational = (100..200).contains(&st.status);
         let (script, errs) = script_prefix_to_error(st);
         let expect_body = !st.head && !bodiless_status(st.status) && st.size != "none" && !(st.size == "sized" && script_total(st) == 0);
@@ -494,8 +630,22 @@ fn coq_stream(case: &Case, st: &St, o: &Obs) -> String {
         _ => format!("(Some {})", o.frames.len()),
     };
     let cut = o.end == End::ClientReset || (lying_cl(st) && o.end != End::Complete);
+    // request side: the RecvStream answers are read off what the handler saw (one per item)
+    let mut upev = vec![];
+    if let Some(up) = &st.up {
+        let mut off = 0usize;
+        for n in &o.up.items {
+            upev.push(format!("UD {} {}", n, (up.fill as usize + off) % 251));
+            off += n;
+        }
+        match o.up.end {
+            "end" => upev.push("UEnd".into()),
+            "h2" => upev.push("UE 0".into()),
+            _ => {}
+        }
+    }
     format!(
-        "(mkS {} {} {} {} {} [{}] {} {})",
+        "(mkS {} {} {} {} {} [{}] {} {} {})",
         coq_bool(st.head),
         st.status,
         match st.size.as_str() {
@@ -507,13 +657,31 @@ fn coq_stream(case: &Case, st: &St, o: &Obs) -> String {
         coq_list(&st.body, coq_ev),
         caps.join("; "),
         seen,
-        coq_bool(cut)
+        coq_bool(cut),
+        if st.up.is_some() { format!("(Some [{}])", upev.join("; ")) } else { "None".into() }
+    )
+}
+
+fn v_up(o: &Obs) -> V {
+    V::T(
+        "up",
+        vec![
+            V::L(o.up.items.iter().map(|n| V::us(*n)).collect()),
+            V::us(o.up.data.len()),
+            V::n(digest(&o.up.data).0),
+            V::n(digest(&o.up.data).1),
+            V::t0(match o.up.end { "end" => "end", "h2" => "h2", "other" => "other", _ => "open" }),
+        ],
     )
 }
 
 fn v_stream(st: &St, o: &Obs) -> V {
     if (100..200).contains(&st.status) {
         return V::t0("informational");
+    }
+    if st.up.is_some() && matches!(o.up.end, "h2" | "other") {
+        // the request stream failed (client reset): the response has no observer
+        return V::T("upcut", vec![v_up(o)]);
     }
     let head = match &o.head {
         None => V::t0("nohead"),
@@ -547,6 +715,11 @@ fn v_stream(st: &St, o: &Obs) -> V {
             V::n(digest(&o.data).1),
             V::h(&o.data[..o.data.len().min(16)]),
             V::t0(end),
+            if st.up.is_some() {
+                v_up(o)
+            } else {
+                V::t0("noup")
+            },
         ],
     )
 }
@@ -606,6 +779,7 @@ fn gen_stream(rng: &mut Rng, w: usize, malformed: bool, small: bool, single: boo
         body,
         hdrs,
         reset_after: None,
+        up: None,
     };
     if malformed {
         match rng.below(5) {
@@ -626,6 +800,68 @@ fn gen_stream(rng: &mut Rng, w: usize, malformed: bool, small: bool, single: boo
         }
     }
     st
+}
+
+/// upload sizes around the server's window, in various send_data splits
+fn gen_up(rng: &mut Rng, sw: usize, thorough: bool) -> Up {
+    let sizes = [0usize, 1, sw.saturating_sub(1), sw, sw + 1, 2 * sw, 3, 1000];
+    let mut size = if rng.chance(4, 5) { *rng.pick(&sizes) } else { rng.range(0, 3 * sw as u64 + 10) as usize };
+    // about 64 window-fulls at most (the server answers with one WINDOW_UPDATE per half window)
+    size = size.min(64 * sw.max(1)).min(200_000);
+    if thorough && sw >= 16_384 && rng.chance(1, 25) {
+        size = 1 << 20;
+    }
+    let splits: Vec<usize> = match rng.below(5) {
+        0 => if size == 0 { vec![] } else { vec![size] },
+        1 if size <= 64 => vec![1; size],
+        2 => {
+            // frame-sized pieces
+            let mut v = vec![chunk_size(); size / chunk_size()];
+            if size % chunk_size() > 0 || size == 0 {
+                v.push(size % chunk_size());
+            }
+            v
+        }
+        _ => {
+            let mut cuts: Vec<usize> = (0..rng.range(1, 6)).map(|_| rng.below(size as u64 + 1) as usize).collect();
+            cuts.push(0);
+            cuts.push(size);
+            cuts.sort();
+            // zero-length pieces (empty DATA frames) stay in
+            cuts.windows(2).map(|w| w[1] - w[0]).collect()
+        }
+    };
+    let reset_after = if rng.chance(1, 8) && !splits.is_empty() { Some(rng.below(splits.len() as u64) as usize) } else { None };
+    Up { splits, fill: rng.below(251) as u8, reset_after }
+}
+
+fn gen_upload_case(rng: &mut Rng, thorough: bool) -> Case {
+    let sw = match rng.below(8) {
+        0 => 1,
+        1 => 2,
+        2 => 65_535,
+        3 => 16_384,
+        4 => rng.range(3, 300),
+        5 => rng.range(300, 65_535),
+        6 => 1 << 20,
+        _ => 0,
+    } as u32;
+    let eff = if sw == 0 { 1 << 20 } else { sw as usize };
+    let n = *rng.pick(&[1usize, 1, 1, 2, 3]);
+    let mut streams = vec![];
+    for _ in 0..n {
+        let blen = *rng.pick(&[0usize, 5, 300]);
+        streams.push(St {
+            head: false,
+            status: *rng.pick(&[200u16, 200, 204, 404]),
+            size: rng.pick(&["sized", "stream"]).to_string(),
+            body: if blen == 0 { vec![] } else { vec![Ev::C { len: blen, fill: rng.below(251) as u8 }] },
+            hdrs: vec![],
+            reset_after: None,
+            up: Some(gen_up(rng, eff, thorough && n == 1)),
+        });
+    }
+    Case { window: *rng.pick(&[65_535u32, 100, 7]), release: "each".into(), pipe: *rng.pick(&[1usize << 20, 65_536, 4096, 64]), swindow: if sw == 0 { None } else { Some(sw) }, streams }
 }
 
 fn gen_case(rng: &mut Rng) -> Case {
@@ -666,7 +902,7 @@ fn gen_case(rng: &mut Rng) -> Case {
             }
         }
     }
-    Case { window, release, pipe: *rng.pick(&[1usize << 20, 1 << 20, 65_536, 4096, 64, 17]), streams }
+    Case { window, release, pipe: *rng.pick(&[1usize << 20, 1 << 20, 65_536, 4096, 64, 17]), swindow: None, streams }
 }
 
 /// is the body polled at all (as the code decides it)
@@ -726,6 +962,17 @@ fn emit_case(em: &mut Emitter, id: String, case: Case) {
         if st.reset_after.is_some() {
             tags.push("reset".into());
         }
+        if let Some(up) = &st.up {
+            let total: usize = up.splits.iter().sum();
+            let sw = case.swindow.map_or(1usize << 20, |x| x as usize);
+            tags.push(format!("upload:{}", if total == 0 { "0" } else if total + 1 == sw { "w-1" } else if total == sw { "w" } else if total == sw + 1 { "w+1" } else if total == 2 * sw { "2w" } else if total > sw { ">w" } else { "<w" }));
+            tags.push(format!("upload-splits:{}", match up.splits.len() { 0 => "0", 1 => "1", 2..=8 => "2-8", _ => "9+" }));
+            tags.push(format!("upload-end:{}", o.up.end));
+            if up.reset_after.is_some() {
+                tags.push("upload-reset".into());
+            }
+            tags.push(format!("swindow:{}", match case.swindow { None => "default", Some(1) => "1", Some(2..=299) => "2-299", Some(300..=65_534) => "300-65534", Some(65_535) => "65535", _ => "65536+" }));
+        }
         for (k, _) in &st.hdrs {
             if FORBIDDEN.contains(&k.as_str()) || k == "content-length" {
                 tags.push(format!("user-hdr:{k}"));
@@ -739,7 +986,9 @@ fn emit_case(em: &mut Emitter, id: String, case: Case) {
     tags.sort();
     tags.dedup();
     let show = v.show();
-    let nontrivial = obs.iter().any(|o| o.frames.len() >= 3) || case.streams.len() > 1;
+    let nontrivial = obs.iter().any(|o| o.frames.len() >= 3)
+        || case.streams.len() > 1
+        || case.streams.iter().any(|st| st.up.as_ref().map_or(false, |u| u.splits.iter().sum::<usize>() > case.swindow.map_or(1usize << 20, |x| x as usize)));
     em.emit(CaseOut {
         id,
         input: serde_json::to_value(&case).unwrap(),
@@ -767,7 +1016,7 @@ fn main() {
         let n = args.n.unwrap_or(if args.thorough() { 1500 } else { 160 });
         for i in 0..n {
             let mut r = rng.fork();
-            let case = gen_case(&mut r);
+            let case = if i % 4 == 3 { gen_upload_case(&mut r, args.thorough()) } else { gen_case(&mut r) };
             emit_case(&mut em, format!("gen-{i}"), case);
         }
     }
